@@ -387,9 +387,10 @@ Proof.
   assert (F1 : Fr s (fst r1) /\ CA s (fst r1)).
   { subst r1. destruct (idk_of (e_id e)) as [k|]; [|split; assumption].
     destruct (id_has k sb); [|split; assumption].
+    destruct (is_user_id k && negb (neg_done sb)); [split; assumption|].
     destruct (call_id_handler k n e sb) as [s1 o1] eqn:E. cbn [fst].
     assert (s1 = fst (call_id_handler k n e sb)) by (rewrite E; reflexivity). subst s1.
-    split; [eauto with frdb | eauto with cadb]. }
+    destruct (is_user_id k); split; eauto with frdb cadb. }
   destruct r1 as [s1 o1]. cbn [fst] in F1. destruct F1 as [F1 C1].
   set (snap := map fst _).
   assert (Hfold : Fr s (fst (fold_left (visit n e) snap (s1, o1))) /\ turned_on e s (fst (fold_left (visit n e) snap (s1, o1)))).
